@@ -17,7 +17,8 @@ def gen(tier, rng, shard, nshards):
         case = {"n": n, "dt": dt, "normal": bool(rng.random() < 0.4), "seed": S.seed(rng), "cols": int(S.pick(rng, [0, 1, 3])),
                 "rhs": S.pick(rng, ["generic", "generic", "eigvec", "few-eigvecs"]), "x0": S.pick(rng, ["none", "none", "zero", "random"]),
                 "tol": float(S.pick(rng, [1e-12, 1e-12, 1e-8, 1e-6])), "via": S.pick(rng, ["gmres", "gmres", "inv"]),
-                "ms": S.pick(rng, ["sweep", "sweep", "beyond"]), "wide_rhs": bool(rng.random() < 0.2)}
+                "ms": S.pick(rng, ["sweep", "sweep", "beyond"]), "wide_rhs": bool(rng.random() < 0.2),
+                "colscale": S.pick(rng, [None, None, None, "tiny", "mixed"])}
         if rng.random() < 0.15:
             # right-hand-side columns living in two invariant subspaces on which the operator acts at very different scales
             # (every column sees one scale only, but the columns of one call see different ones)
@@ -130,6 +131,11 @@ def build(case):
     b = b.astype(P.DT[dt])
     if not cplx and case.get("wide_rhs") and case["rhs"] == "generic":
         b = (b + 1j * rng.standard_normal(b.shape)).astype(np.complex128)  # complex right-hand side for a real operator
+    cs = case.get("colscale")
+    if cs == "tiny":
+        b = b * 1e-13  # a right-hand side of tiny norm: the solve is linear in b, every oracle is relative to ||r0|| per column
+    elif cs == "mixed":
+        b = b * np.array([1e-12, 1.0, 1e8][:b.shape[1]])[None, :]
     if case["cols"] == 0:
         b = b[:, 0]
     if case["x0"] == "none":
@@ -138,6 +144,7 @@ def build(case):
         x0 = np.zeros_like(b)
     else:
         x0 = (rng.standard_normal(b.shape) + (1j * rng.standard_normal(b.shape) if cplx else 0)).astype(b.dtype)
+        x0 = x0 * (np.linalg.norm(b.reshape(n, -1), axis=0).reshape((1, -1) if b.ndim == 2 else ()) if cs else 1.0)
         degree = None  # the initial residual is generic again
     return M, b, x0, degree
 
